@@ -27,7 +27,7 @@ def main(argv):
         print(f'no check for {pid}')
         return 2
     from framework import Check
-    chk = Check(pid, tier, seed)
+    chk = Check(pid, tier, seed, keep_replays=bool(replay))
     try:
         if replay:
             return mod.replay(chk, replay)
